@@ -22,6 +22,7 @@ def variants(algo, tier):
         out.append(("mask", {"init": "random", "mask": "MASK"}))
         out.append(("fixed0", {"init": "user", "fixed_modes": [0]}))
         out.append(("einsum-random-normalize", {"init": "random", "normalize_factors": True, "tenalg": "einsum"}))
+        out.append(("class-mask-fixed0", {"init": "random", "mask": "MASK", "fixed_modes": [0], "api": "class"}))
     elif algo == "non_negative_parafac_hals":
         for init in ("svd", "random", "user", "user-zeros"):
             out.append((f"{init}", {"init": init}))
@@ -40,6 +41,8 @@ def variants(algo, tier):
             for nn in ("MODES:LAST", "MODES:0,LAST", "MODES:0", "MODES:1,LAST"):
                 out.append((f"fixed{fx}-nn-{nn[6:]}", {"init": "random", "fixed_modes": fx, "nn_modes": nn}))
         out.append(("einsum-svd", {"init": "svd", "tenalg": "einsum"}))
+        out.append(("class-fixed[0]-nn-0,LAST", {"init": "random", "fixed_modes": [0], "nn_modes": "MODES:0,LAST", "api": "class"}))
+        out.append(("class-nn_modes-[1]-normalize", {"init": "svd", "nn_modes": [1], "normalize_factors": True, "api": "class"}))
         out.append(("einsum-nn_modes-[1]", {"init": "random", "nn_modes": [1], "tenalg": "einsum"}))
     elif algo == "non_negative_tucker":
         for init in ("svd", "random"):
@@ -61,6 +64,7 @@ def variants(algo, tier):
         out.append(("dict-0-last", {"init": "random", "non_negative": "DICT:0,LAST"}))
         out.append(("all-inner1", {"init": "svd", "non_negative": True, "n_iter_max_inner": 1}))
         out.append(("einsum-dict-0-last", {"init": "svd", "non_negative": "DICT:0,LAST", "tenalg": "einsum"}))
+        out.append(("class-dict-0-last", {"init": "random", "non_negative": "DICT:0,LAST", "api": "class"}))
     elif algo == "parafac2-linesearch-seam":
         # the accepted extrapolated step of PARAFAC2's line search, driven directly (narrowest seam): every subset of declared modes
         for nn in ([0], [2], [0, 2], [0, 1], [1, 2], [0, 1, 2], [2, 0]):
@@ -76,6 +80,8 @@ def variants(algo, tier):
         out.append(("nn-[0, 2]-linesearch-svd", {"init": "svd", "nn_modes": [0, 2], "linesearch": True}))
         out.append(("nn-[0]-normalize", {"init": "random", "nn_modes": [0], "linesearch": False, "normalize_factors": True}))
         out.append(("einsum-nn-[0, 2]", {"init": "random", "nn_modes": [0, 2], "linesearch": False, "tenalg": "einsum"}))
+        out.append(("class-nn-[0, 2]-linesearch", {"init": "random", "nn_modes": [0, 2], "linesearch": True, "api": "class"}))
+        out.append(("class-nn-all", {"init": "random", "nn_modes": "all", "api": "class"}))
     return out
 
 
